@@ -1,5 +1,6 @@
 import SkimModel.Model.Positions
 import SkimModel.Model.LinePrinter
+import SkimModel.Model.Draw
 import SkimModel.Generated.ReshapeFns
 import SkimModel.Lemmas.FnTactics
 /-!
@@ -156,5 +157,26 @@ theorem accumulate_is_printer_model (chw : Char → Nat) (tabstop w : Nat) (t : 
     simp only [interpAccP, SkimModel.Draw.accFrom, hs, ih]
 
 theorem acc_init_is_model : ReshapeFns.accInit = 0 := by decide
+
+/-! ### `draw_item`: the shift handed to the line printer -/
+
+/-- against the C11 model (`View.shiftOf`) -/
+theorem draw_shift_is_printer_model (v : SkimModel.Draw.View) (text : List Char) (cwidth ms me shift full : Nat) :
+    ReshapeFns.drawShift v.noHscroll v.keepRight (v.calcSkipWidth text) ms me full cwidth shift =
+      v.shiftOf text cwidth ms me shift full := by
+  unfold ReshapeFns.drawShift SkimModel.Draw.View.shiftOf
+  cases v.noHscroll <;> cases v.keepRight <;> simp <;> fn_eq
+
+/-- against the C08 model: the last step of `drawShift` -/
+theorem draw_shift_is_model (noHscroll keepRight : Bool) (skip ms me full cw shift : Nat) :
+    ReshapeFns.drawShift noHscroll keepRight skip ms me full cw shift =
+      (if noHscroll then 0 else if ms == 0 && me == 0 then (if keepRight then max full cw - cw else skip) else shift) := by
+  unfold ReshapeFns.drawShift
+  cases noHscroll <;> cases keepRight <;> simp <;> fn_eq
+
+/-- `container_width = screen_width - 2`, refused below 3 columns (`drawItem` of the C11 model) -/
+theorem container_width_is_model (w : Nat) : ReshapeFns.containerWidth w = w - 2 ∧ ReshapeFns.minScreenWidth = 3 := by
+  unfold ReshapeFns.containerWidth ReshapeFns.minScreenWidth
+  exact ⟨by omega, rfl⟩
 
 end SkimModel.Positions
